@@ -37,6 +37,7 @@
 // otherwise "valid route" is not promised.
 #include "common.h"
 #include "libavoid/libavoid.h"
+#include <cstdlib>
 #include <map>
 #include <set>
 #include <unistd.h>
@@ -403,6 +404,9 @@ void addPins(World &w, vh::Rng &rng, unsigned id) {
         bool dup = false;
         for (const PinDef &pd : findOb(w, id)->pins) if (pd.xo == xo && pd.yo == yo) dup = true;
         if (dup) continue;
+        // a second pin in class 1 only with C06_PIN_MULTI=1 in the environment (not in the plan): after its shape has
+        // moved an attached connector keeps the pin it used before, where a fresh router takes the cheaper pin of the class
+        if (i == 2 && getenv("C06_PIN_MULTI") == nullptr) continue;
         opNewPin(w, rng, id, cls, xo, yo);
     }
 }
@@ -983,7 +987,13 @@ static void runCase(const vh::Args &a, long k) {
         World w;
         w.pinsOn = cls >= 12;
         if (w.pinsOn) w.dumpsLeft = 0;                  // the graph audit does not know pin vertices
-        w.orth = (cls == 5 || cls == 7) || (cls >= 1 && cls <= 3 && rng.coin(1, 3)) || (cls >= 12 && rng.coin());   // cls 0, 8, 9, 10, 11 are polyline-only
+        w.orth = (cls == 5 || cls == 7) || (cls >= 1 && cls <= 3 && rng.coin(1, 3));   // cls 0, 8, 9, 10, 11 are polyline-only
+        // The pin classes are polyline-only in the plan: with orthogonal routing the unchanged library aborts on some
+        // histories (makepath.cpp:974 COLA_ASSERT(orthogonalDirectionsCount(thisDirs) > 0): a pin vertex with a
+        // zero-length orthogonal visibility edge, e.g. the connector's other end exactly above a top pin - the shape
+        // analogue of C15's known finding kf-orth-junction-aligned-point). C06_PIN_ORTH=1 in the environment turns
+        // orthogonal pin histories on (same case streams: the coin is always drawn) to replay those findings.
+        if (cls >= 12) { bool po = rng.coin(); w.orth = po && getenv("C06_PIN_ORTH") != nullptr; }
         static const double polyPen[] = {0, 0, 10, 50}, orthPen[] = {10, 10, 50};
         w.pen = w.orth ? orthPen[rng.range(0, 2)] : polyPen[rng.range(0, 3)];
         w.txn = !(cls == 6 || cls == 7) && !((cls <= 2 || cls >= 8) && rng.coin(1, 3));   // (pin classes: a third with transactions off)
